@@ -119,7 +119,7 @@ fn codes_val(tag: &str, codes: &[i64]) -> Val {
 }
 
 /// values of the text-validation dataset are texts and digests of texts
-fn tv_val(keyid: &str, v: &DataValue, style: IdStyle) -> Val {
+pub fn tv_val(keyid: &str, v: &DataValue, style: IdStyle) -> Val {
     match (keyid, v) {
         ("text", DataValue::String(s)) => codes_val("text", &codes_of(s)),
         ("checksum", DataValue::String(s)) => match SHA_TABLE.with(|t| t.borrow().get(s).cloned()) {
